@@ -17,7 +17,8 @@
 (***************************************************************************)
 EXTENDS Integers, Sequences, FiniteSets, TLC
 
-CONSTANTS Names, Sals, MaxOld, MaxNew, Slack
+CONSTANTS Names, Sals, MaxOld, MaxNew, Slack,
+          AlwaysFresh   \* TRUE: every append allocates a new array (what the code silently relies on NOT happening)
 
 \* a rule is [name, sal, ver]; a slice is [a (array id), off, len]; cap = Len(heap[a]) - off;
 \* unused cells of an array hold Nil
@@ -30,7 +31,7 @@ Sub(s, i, j) == [a |-> s.a, off |-> s.off + i, len |-> j - i]
 
 \* append(s, vals...): in place when it fits, otherwise a fresh array with some slack
 AppendVals(h, s, vals, slack) ==
-  IF s.len + Len(vals) <= Cap(h, s)
+  IF ~AlwaysFresh /\ s.len + Len(vals) <= Cap(h, s)
   THEN [h |-> [h EXCEPT ![s.a] = [k \in 1..Len(@) |->
                   IF k > s.off + s.len /\ k <= s.off + s.len + Len(vals) THEN vals[k - s.off - s.len] ELSE @[k]]],
         s |-> [s EXCEPT !.len = @ + Len(vals)]]
